@@ -1,5 +1,6 @@
 """C09 — base discretization honours min_freq and keeps its granularity."""
 from collections import Counter
+from fractions import Fraction
 
 from hypothesis import strategies as st
 
@@ -23,7 +24,7 @@ RULE = (
 )
 BOUNDS = {"rows": "12-400", "features": "1-3"}
 ASSUMPTIONS = [
-    "frequencies are compared with a 1e-12 slack (the code divides floats)",
+    "frequencies are compared exactly (count/n as Fraction against the decimal value of min_freq); with n <= 400 this agrees with the package's float comparisons",
     "a feature dropped by the discretizer (most frequent value rarer than min_freq) is not judged",
 ]
 BUDGET = {"quick": 3000, "thorough": 40000}
@@ -33,6 +34,12 @@ CLASSES = (
     "ContinuousDiscretizer", "OrdinalDiscretizer", "CategoricalDiscretizer",
 )
 EPS = 1e-12
+
+
+def dec(x) -> Fraction:
+    """Exact value of a threshold as the user wrote it (0.1 means 1/10): count/n compared in exact
+    arithmetic agrees with the package's float comparison because n <= 400."""
+    return Fraction(repr(x))
 STR_NAN, STR_DEFAULT = "__NAN__", "__OTHER__"
 
 
@@ -88,7 +95,7 @@ def check_case(case) -> Outcome:
             merged = len(values) > len(non_nan)
             if cls == "ContinuousDiscretizer":
                 q = round(1 / min_freq)
-                frequent = {v for v, c in values.items() if c / n >= min_freq - EPS}
+                frequent = {v for v, c in values.items() if Fraction(c, n) >= dec(min_freq)}
                 for v in sorted(frequent):
                     if v not in finite:
                         f = values[v] / n
@@ -102,7 +109,7 @@ def check_case(case) -> Outcome:
                 for pos, b in enumerate(non_nan):
                     inside = [v for v in values if lower < v <= b]
                     share = sum(values[v] for v in inside) / n
-                    if not any(v in frequent for v in inside) and share > 2.5 * min_freq + EPS:
+                    if not any(v in frequent for v in inside) and Fraction(sum(values[v] for v in inside), n) > Fraction(5, 2) * dec(min_freq):
                         out.violate("bucket-larger-than-2.5-min_freq", f"{feat}: bucket ({lower}, {b}] holds {share:.4f} of the rows, min_freq={min_freq}, boundaries {non_nan!r}")
                         break
                     lower = b
@@ -111,7 +118,7 @@ def check_case(case) -> Outcome:
                     if isinstance(b, str):
                         continue
                     share = counts.get(pos, 0) / n
-                    if share < min_freq / 2 - EPS:
+                    if Fraction(counts.get(pos, 0), n) < dec(min_freq) / 2:
                         out.violate("quantitative-bucket-below-min_freq/2", f"{feat}: bucket #{pos} (<= {b!r}) holds {share:.4f} < {min_freq / 2}; boundaries {non_nan!r}")
                         break
         elif kind == "ordinal":
@@ -121,7 +128,9 @@ def check_case(case) -> Outcome:
                     if l in nan_leader:
                         continue
                     share = counts.get(pos, 0) / n
-                    if share < min_freq - EPS:
+                    if Fraction(counts.get(pos, 0), n) == dec(min_freq):
+                        out.label("ordinal-bucket-exactly-at-min_freq")
+                    if Fraction(counts.get(pos, 0), n) < dec(min_freq):
                         out.violate("ordinal-bucket-below-min_freq", f"{feat}: bucket {l!r} holds {share:.4f} < {min_freq}; order {leaders!r} content {dict(order.content)!r}")
                         break
             if len(non_nan) < len(spec["ranking"]):
@@ -130,11 +139,10 @@ def check_case(case) -> Outcome:
             forms = Counter(v if isinstance(v, str) else canonical_str(v) for v in raws if not is_missing(v))
             default_members = [m for m in content_of(order, STR_DEFAULT) if isinstance(m, str) and m != STR_DEFAULT]
             has_default = any(isinstance(l, str) and l == STR_DEFAULT for l in leaders)
-            rare = {v for v, c in forms.items() if c / n < min_freq - EPS}
-            borderline = {v for v, c in forms.items() if abs(c / n - min_freq) <= EPS}
+            rare = {v for v, c in forms.items() if Fraction(c, n) < dec(min_freq)}
+            if any(Fraction(c, n) == dec(min_freq) for c in forms.values()):
+                out.label("category-exactly-at-min_freq")
             for v in forms:
-                if v in borderline:
-                    continue
                 in_default = any(eq(v, m) for m in default_members)
                 if (v in rare) != in_default:
                     falsy = " (falsy value)" if not v else ""
